@@ -119,6 +119,8 @@ class _Gen:
                 "members": [], "edges": [],
                 "build": rng.choice(("ctor", "ctor", "add", "scheduler_kw",
                                      "sequence"))}
+        if rng.random() < 0.2:
+            node["late_attrs"] = True
         if top and rng.random() < prof['pure_top']:
             node["cls"] = "PureScheduler"
         else:
